@@ -3,9 +3,9 @@ package main
 // intrinsics.go - engine models for leaf routines (assembly), sync, atomic, errors, misc.
 
 import (
-	"golang.org/x/tools/go/ssa"
 	"fmt"
 	"go/types"
+	"golang.org/x/tools/go/ssa"
 	"strings"
 )
 
@@ -563,12 +563,25 @@ func init() {
 }
 
 func init() {
-	// sync.Pool: every Get allocates afresh (a legal behaviour of the pool), Put forgets.
+	// sync.Pool: Get returns either a fresh value from New or ANY value put back earlier (both are
+	// legal behaviours of the pool; the choice is explored), Put remembers the value.
 	reg("(*sync.Pool).Get", func(in *Interp, g *Goroutine, c *callCtx) (Value, int) {
 		p := c.args[0].(*PtrV)
 		if p.C == nil {
 			in.goPanic(g, &PanicV{Kind: "nil", Msg: "nil *sync.Pool"})
 			return nil, irPanic
+		}
+		k := fmt.Sprintf("pool:%p", p.C)
+		var items []Value
+		if v, ok := in.natives[k]; ok {
+			items = v.([]Value)
+		}
+		if len(items) > 0 && in.mergeDepth == 0 {
+			if ch := in.choose(len(items)+1, "pool.Get"); ch > 0 {
+				it := items[ch-1]
+				in.natives[k] = append(append([]Value(nil), items[:ch-1]...), items[ch:]...)
+				return done(it)
+			}
 		}
 		// field "New func() any" is the last field of sync.Pool
 		nf, _ := in.load(p.C.Kids[len(p.C.Kids)-1]).(*FuncV)
@@ -577,5 +590,18 @@ func init() {
 		}
 		return done(in.callSync(g, nf, nil))
 	})
-	reg("(*sync.Pool).Put", func(in *Interp, g *Goroutine, c *callCtx) (Value, int) { return done(nil) })
+	reg("(*sync.Pool).Put", func(in *Interp, g *Goroutine, c *callCtx) (Value, int) {
+		p := c.args[0].(*PtrV)
+		if p.C != nil {
+			k := fmt.Sprintf("pool:%p", p.C)
+			var items []Value
+			if v, ok := in.natives[k]; ok {
+				items = v.([]Value)
+			}
+			if len(items) < 4 {
+				in.natives[k] = append(append([]Value(nil), items...), c.args[1])
+			}
+		}
+		return done(nil)
+	})
 }
